@@ -140,4 +140,16 @@ Definition export (times : list qty) (e : erec) (us : units) : res (list (string
                  end) (er_vars e) ;;
       Ok (("time (" ++ u_time us ++ ")", tcol) :: cols)
   end.
+(** Powertrain.export_time_variables (the method): the function above for every element of the powertrain in order, one file per
+    element, named after it, all with the same requested units; an element whose export raises stops the loop (the files already
+    written remain) *)
+Fixpoint export_all (times : list qty) (els : list erec) (us : units) : list (string * list (string * list (num A))) * option exn :=
+  match els with
+  | [] => ([], None)
+  | e :: els' =>
+      match export times e us with
+      | Ok cols => let r := export_all times els' us in ((er_name e, cols) :: fst r, snd r)
+      | Err x => ([], Some x)
+      end
+  end.
 End Report.
